@@ -6,6 +6,7 @@ The property over histories and crash points follows from these plus C02's order
 by the argument of INTERNALS.md; that step is not machine-checked.
 """
 from qv.core import AnalysisBroken
+from qv.esp import Engine, Outcome, TOP, fs
 from rules import qsend
 from rules.qsend import attach
 
@@ -64,12 +65,65 @@ def run(ctx):
     attach(r4, td, only={'todo:confirmed-message-is-scheduled', 'todo:schedule-only-after-qmail-clean-confirmed'})
     # pass_do: pqfail -> pqadd, pqdone -> messdone
     pd = prog.fn('pass_do', 'qmail-send.c')
-    pairs = {}
-    for c in pd.calls('prioq_delmin'):
-        q = c.args[0].strip().args[0].src()
-        nxt = [d for d in pd.calls(('pqadd', 'messdone')) if pd.dominates(c, d)]
-        pairs[q] = nxt[0].callee if nxt else None
-    r4.check(pairs == {'pqfail': 'pqadd', 'pqdone': 'messdone'}, 'pass_do:pqfail->pqadd,pqdone->messdone', pd.unit + ':pass_do', 'entries taken off queues in pass_do go to %s' % pairs)
+
+    class PD(qsend.SendHooks):
+        """pass_do() with one entry in pqfail (message 71) and one in pqdone (message 72), due or not"""
+        def __init__(self, due):
+            super().__init__()
+            self.due = due
+            self.ends = []
+
+        def tracked_global(self, path):
+            return True
+
+        def precise_arith(self, path):
+            return True
+
+        def _q(self, args):
+            v = args[0]
+            v = next(iter(v)) if v is not TOP and len(v) == 1 else None
+            return v[1] if isinstance(v, tuple) and v[0] == '&' else None
+
+        def prim_pass_dochan(self, E, x, args):
+            return [Outcome(ret=TOP)]
+
+        def prim_prioq_min(self, E, x, args):
+            q = self._q(args)
+            pe = next(iter(args[1])) if args[1] is not TOP and len(args[1]) == 1 else None
+            ids = {'G:pqfail': 71, 'G:pqdone': 72}
+            if q not in ids or qsend.g1(E, '$gone:' + q, 0) or not isinstance(pe, tuple):
+                return [Outcome(ret=fs(0))]
+            return [Outcome(ret=fs(1), sets={pe[1] + '.id': fs(ids[q]), pe[1] + '.dt': fs(7000 if self.due else 7001)})]
+
+        def prim_prioq_delmin(self, E, x, args):
+            q = self._q(args)
+            E.set('$ev', fs(tuple(qsend.g1(E, '$ev', ())) + (('delmin', q),)))
+            return [Outcome(ret=TOP, sets={'$gone:' + str(q): fs(1)})]
+
+        def _act(self, E, x, args):
+            v = next(iter(args[0])) if args[0] is not TOP and len(args[0]) == 1 else None
+            E.set('$ev', fs(tuple(qsend.g1(E, '$ev', ())) + ((x.callee, v),)))
+            return [Outcome(ret=TOP)]
+
+        prim_pqadd = prim_messdone = _act
+
+        def on_return(self, E, fn, val):
+            if fn.name == 'pass_do':
+                self.ends.append((tuple(qsend.g1(E, '$ev', ())), E.trace.list()))
+    badpd = None
+    for due in (True, False):
+        hp = PD(due)
+        ep = Engine(db, prog, hp, max_states=60000)
+        ep.run(pd, {'G:recent': fs(7000)})
+        rep.count_states(ep.states, ep.transitions)
+        if len(hp.ends) != 1:
+            raise AnalysisBroken('pass_do: %d ends' % len(hp.ends))
+        ev, tr = hp.ends[0]
+        want = (('delmin', 'G:pqfail'), ('pqadd', 71), ('delmin', 'G:pqdone'), ('messdone', 72)) if due else ()
+        if ev != want and badpd is None:
+            badpd = ('entries %s: pass_do() does %s; documented %s (a due entry of pqfail goes back through pqadd, a due entry of pqdone to messdone, nothing is taken before its time)' %
+                     ('due now' if due else 'due in one second', list(ev), list(want)), tr)
+    r4.check(badpd is None, 'pass_do:pqfail->pqadd,pqdone->messdone', pd.unit + ':pass_do', badpd[0] if badpd else 'due and not-due entries', badpd[1] if badpd else None)
     r4.expect_min(8)
 
     r5 = rep.rule('C03.5-restart', 'R-TABLE', 'pqstart re-adds every message with an info file; pqadd never drops a message on a stat error (-> pqfail); startup scan precedes the loop')
